@@ -78,8 +78,8 @@ def run(ctx):
     oc = fa.call_blocks(lambda c: c.endswith('StreamOpener::open_chunk'))
     ctx.ob('R20.1', 'Encryption|open_chunk dominates', bool(oc) and sbi not in fa.reach_from([0], avoid=oc), 'the response is opened with the shared key before acceptance', fa.loc(oc[0]) if oc else fa.loc())
     cmps = [bi for bi, t, c in fa.calls() if bi in fa.reachable() and (callee_decl(t) or '').endswith(('PartialEq::ne', 'PartialEq::eq')) and bi in fa.coreach([sbi])]
-    exp_l = fa.locals_named('expected_response')
-    ctx.require(exp_l, 'R20.1: expected_response local')
+    exp_l = sorted({fa._mutref_target(op_local(fa.term[bi]['args'][0])) for bi in fa.call_blocks(lambda c: c.endswith('Vec::extend_from_slice'))} - {None})
+    ctx.require(len(exp_l) == 1, f'R20.1: the expected-response buffer (receiver of extend_from_slice) not identified: {exp_l}')
     cmp_bytes = [bi for bi in cmps if any(op_local(a) is not None and set(exp_l) & fa.derived_from(op_local(a)) for a in fa.term[bi]['args'])]
     cmp_tag = [bi for bi in cmps if any('StreamTag' in fa.locals[op_local(a)][0] for a in fa.term[bi]['args'] if op_local(a) is not None)]
     ctx.ob('R20.1', 'Encryption|bytes compared', bool(cmp_bytes), 'the opened bytes are compared with the expected response', fa.loc(cmp_bytes[0]) if cmp_bytes else fa.loc())
@@ -138,7 +138,8 @@ def run(ctx):
     ctx.ob('R20.2', 'refusals via _make_error', len(mkerr) >= 4, f'protocol, role, challenge-length and both mode/key mismatches call _make_error (observed {len(mkerr)} sites)', mr.loc())
     seal = mr.call_blocks(lambda c: c.endswith('StreamSealer::seal_chunk'))
     ctx.require(seal, 'R20.2: seal_chunk')
-    rl = mr.locals_named('response')
+    rl = sorted({mr._mutref_target(op_local(mr.term[bi]['args'][0])) for bi in mr.call_blocks(lambda c: c.endswith('Vec::extend_from_slice'))} - {None})
+    ctx.require(len(rl) == 1, f'R20.2: the response buffer (receiver of extend_from_slice) not identified: {rl}')
     ext = [bi for bi in mr.call_blocks(lambda c: c.endswith('Vec::extend_from_slice')) if set(rl) & mr.derived_from(op_local(mr.term[bi]['args'][0]))]
     srcf = set()
     for bi in ext:
